@@ -44,6 +44,15 @@ pub fn content1() -> Content {
     }
 }
 
+/// like `content1`, with a second part of the offered payment: same hash, same expiry, same
+/// direction, hence the same output script as the first part
+pub fn content1_two_parts() -> Content {
+    let mut c = content1();
+    c.out.push(H { value_sat: 20_500, hash: 2, cltv: 60 });
+    c.to_holder -= 20_500;
+    c
+}
+
 fn expect<T>(what: &str, o: Outcome<T>) -> T {
     match o {
         Outcome::Ok(t) => t,
@@ -54,6 +63,10 @@ fn expect<T>(what: &str, o: Outcome<T>) -> T {
 
 /// Create, fund and (optionally) advance a channel.  Every step goes through the public API.
 pub fn fund_channel(w: &World, dbid: u64, anchors: bool, advance: bool) -> Funded {
+    fund_channel_with(w, dbid, anchors, advance, content1())
+}
+
+pub fn fund_channel_with(w: &World, dbid: u64, anchors: bool, advance: bool, c1: Content) -> Funded {
     let cp = Cp::new(100 + (dbid as u8) * 10);
     expect("new_channel", w.new_channel(dbid));
     let holder_pubkeys = w.holder_basepoints(dbid).unwrap();
@@ -70,7 +83,6 @@ pub fn fund_channel(w: &World, dbid: u64, anchors: bool, advance: bool) -> Funde
     expect("setup_channel", w.setup_channel(dbid, &setup));
     let params = ChanParams { setup: setup.clone(), holder_pubkeys };
     let c0 = content0();
-    let c1 = content1();
     // initial holder commitment
     let p0 = w.holder_point_raw(dbid, 0).unwrap();
     let (sig, hs) = params.cp_sign_holder_commitment(&cp, 0, &p0, &c0);
@@ -123,10 +135,14 @@ pub fn advance_to_one(w: &World, f: &mut Funded) {
         "sign cp 0",
         w.with_chan(dbid, |ch| ch.sign_counterparty_commitment_tx_phase2(&cpp0, 0, c0.feerate, c0.to_holder, c0.to_cp, c0.inc_info(), c0.out_info())),
     );
-    // the offered HTLC pays an approved keysend
+    // the offered HTLCs pay approved keysends (all parts of one hash under one approval)
+    let mut per_hash: std::collections::BTreeMap<u8, u64> = Default::default();
     for h in &c1.out {
+        *per_hash.entry(h.hash).or_insert(0) += h.value_sat * 1000;
+    }
+    for (h, amt) in per_hash {
         let node = w.node.clone();
-        let (hash, amt) = (pay_hash(h.hash), h.value_sat * 1000);
+        let (hash, amt) = (pay_hash(h), amt);
         let payee = lightning_signer::bitcoin::secp256k1::PublicKey::from_secret_key(&secp(), &sk(201));
         let ok = expect("keysend", call(move || node.add_keysend(payee, hash, amt).map_err(|e| status_kind(&e))));
         assert!(ok, "keysend not approved");
